@@ -206,6 +206,13 @@ def run_case(case):
         ogot = obs_list(got)
         d = recs.list_diff(expected, ogot)
         if d is None:
+            # the ordered (type, name) field list each record reports, grouped records' flat view included
+            kept = [r for i, r in enumerate(records) if i not in XFAIL[0]]
+            for wr, rr in zip(kept, got):
+                if [list(t) for t in wr._desc.get_field_tuples()] != [list(t) for t in rr._desc.get_field_tuples()]:
+                    viol.append(("C01:%s:field-list-differs" % case["kind"], case, {"channel": ch, "written": [list(t) for t in wr._desc.get_field_tuples()],
+                                                                                 "read": [list(t) for t in rr._desc.get_field_tuples()]}))
+                    break
             outs.append("ok")
             continue
         idx, slot, ftype, cls = d
